@@ -603,9 +603,272 @@ Proof.
       set (st3 := increment_s g (mkS (R2 * gL g) false 0 R2 br (gv g) (gH g - (s + ll)) cb sf sp) ltr) in *.
       pose proof (reset_sep_ok _ _ _ _ Emg HI3) as HI4.
       eexists. split; [f_equal; lia|]. split; [|simp_st; lia].
-      unfold Rel. cbn [a_s a_pend a_exact]. fold s. splits; try lia. intros _.
+      unfold Rel. cbn [a_s a_pend a_exact]. simp_st. fold s. splits; try lia. intros _.
       rewrite Hs2n in HI4. simp_st_in HI4. rewrite Em in HI4. cbn [negb andb orb] in HI4.
       rewrite Em. cbn [negb andb]. rewrite ltr_pos_equiv in HI4 by lia. exact HI4.
 Qed.
 
+Lemma rows_of_zero s : rows_of s 0 = [].
+Proof. reflexivity. Qed.
+
+Lemma read_ok a st n a' :
+  Rel a st -> haz_step g a (Read n) = (0, a') ->
+  exists st' cs, read_loop_s g (Z.to_nat n) st n = (st', cs, rows_of (a_s a) (a_s a' - a_s a)) /\
+    Rel a' st' /\ a_s a' = Z.min (gH g) (a_s a + Z.max 0 n) /\
+    Forall (fun c => 1 <= c) cs /\ zsum cs = a_s a' - a_s a.
+Proof.
+  intros (Hsc & Hs & HI) Hh. unfold haz_step in Hh. set (s := a_s a) in *.
+  destruct (n <=? 0) eqn:E1.
+  { cbn [orb] in Hh. inversion Hh; subst a'. fold s. rewrite read_loop_zero by lia.
+    exists st, []. replace (s - s) with 0 by lia. rewrite rows_of_zero.
+    splits; try lia; try reflexivity; [unfold Rel; fold s; auto | constructor]. }
+  destruct (gH g <=? s) eqn:E2.
+  { cbn [orb] in Hh. inversion Hh; subst a'. fold s. rewrite read_loop_bottom by lia.
+    exists st, []. replace (s - s) with 0 by lia. rewrite rows_of_zero.
+    splits; try lia; try reflexivity; [unfold Rel; fold s; auto | constructor]. }
+  cbn [orb] in Hh.
+  destruct (negb (a_exact a) && (gH g <? s + n) && negb (gH g mod gv g =? 0)) eqn:E3; [inversion Hh|].
+  inversion Hh; subst a'. clear Hh. cbn [a_s].
+  assert (HsH : s < gH g) by lia. specialize (HI HsH).
+  assert (Hside : a_exact a = true \/ gH g mod gv g = 0 \/ s + n <= gH g).
+  { destruct (a_exact a); [left; reflexivity|]. cbn [negb andb] in E3.
+    destruct (gH g <? s + n) eqn:E4; [|right; right; lia]. cbn [andb] in E3.
+    right; left. destruct (gH g mod gv g =? 0) eqn:E5; [lia|discriminate]. }
+  destruct (read_loop_ok (Z.to_nat n) s (a_pend a) (a_exact a) st n HI ltac:(lia) ltac:(lia) Hside)
+    as (st' & cs & Hrl & Hsc' & Hall & Hsum & HI').
+  exists st', cs. replace (Z.min (gH g) (s + n) - s) with (Z.min n (gH g - s)) by lia.
+  splits; try assumption; try lia.
+  unfold Rel. cbn [a_s a_pend a_exact]. splits; try lia. intros Hlt. replace (Z.min (gH g) (s + n)) with (s + n) by lia.
+  apply HI'. lia.
+Qed.
+
+Definition op_nonneg (o : op) : Prop := match o with Read _ => True | Skip n => 0 <= n end.
+Definition op_amount (o : op) : Z := match o with Read n => Z.max 0 n | Skip n => n end.
+
+(* what one op must produce when it starts at scanline s *)
+Definition op_result_ok (s : Z) (o : op) (cs : list Z) (rs : list prov) (after : Z) : Prop :=
+  after = Z.min (gH g) (s + op_amount o) /\
+  zsum cs = after - s /\
+  match o with
+  | Read _ => rs = rows_of s (after - s) /\ Forall (fun c => 1 <= c) cs
+  | Skip _ => rs = [] /\ cs = [after - s]
+  end.
+
+Lemma step_ok a st o a' :
+  Rel a st -> op_nonneg o -> haz_step g a o = (0, a') ->
+  exists st' cs rs, step_s g st o = (st', (cs, rs)) /\ Rel a' st' /\ op_result_ok (a_s a) o cs rs (a_s a').
+Proof.
+  intros HR Hnn Hh. destruct o as [n | n]; cbn [step_s].
+  - destruct (read_ok a st n a' HR Hh) as (st' & cs & Hrl & HR' & Hpos & Hall & Hsum).
+    rewrite Hrl. exists st', cs, (rows_of (a_s a) (a_s a' - a_s a)).
+    splits; try assumption; try reflexivity. unfold op_result_ok. cbn [op_amount]. splits; auto.
+  - cbn in Hnn. destruct (skip_ok a st n a' HR Hnn Hh) as (st' & Hsk & HR' & Hpos).
+    rewrite Hsk. exists st', [a_s a' - a_s a], [].
+    splits; try assumption; try reflexivity. unfold op_result_ok. cbn [op_amount zsum]. splits; auto; lia.
+Qed.
+
+Fixpoint trace_ok (s : Z) (ops : list op) (tr : list (Z * list Z * list prov * Z)) : Prop :=
+  match ops, tr with
+  | [], [] => True
+  | o :: t, (before, cs, rs, after) :: tr' => before = s /\ op_result_ok s o cs rs after /\ trace_ok after t tr'
+  | _, _ => False
+  end.
+
+Fixpoint final_pos (s : Z) (ops : list op) : Z :=
+  match ops with [] => s | o :: t => final_pos (Z.min (gH g) (s + op_amount o)) t end.
+
+Lemma run_ok ops : forall a st,
+  Forall op_nonneg ops -> Rel a st -> first_hazard g a ops = 0 ->
+  scan (fst (run_s g st ops)) = final_pos (a_s a) ops /\ trace_ok (a_s a) ops (snd (run_s g st ops)).
+Proof.
+  induction ops as [|o t IH]; intros a st Hnn HR Hfh.
+  - cbn. split; [apply HR | exact I].
+  - inversion Hnn as [|? ? Ho Ht]; subst.
+    cbn [first_hazard] in Hfh. destruct (haz_step g a o) as [h a1] eqn:Eh.
+    destruct (h =? 0) eqn:Eh0; [|lia]. assert (h = 0) by lia. subst h.
+    destruct (step_ok a st o a1 HR Ho Eh) as (st1 & cs & rs & Hst & HR1 & Hres).
+    cbn [run_s]. rewrite Hst.
+    destruct (IH a1 st1 Ht HR1 Hfh) as (A & B).
+    destruct (run_s g st1 t) as [st2 tr] eqn:Er. cbn [fst snd] in *.
+    assert (Hsc : scan st = a_s a) by apply HR. assert (Hsc1 : scan st1 = a_s a1) by apply HR1.
+    assert (Hpos : a_s a1 = Z.min (gH g) (a_s a + op_amount o)) by apply Hres.
+    split.
+    + cbn [final_pos]. rewrite <- Hpos. exact A.
+    + cbn [trace_ok]. rewrite Hsc, Hsc1. splits; auto.
+Qed.
+
+Lemma Rel_init : Rel a_init (s_init g).
+Proof.
+  unfold Rel, a_init, s_init. cbn [a_s a_pend a_exact]. simp_st. splits; try lia.
+  intros HltH. exists 0, 0, 0. simp_st. splits; try lia; try discriminate; try reflexivity.
+  all: try (intros _; splits; auto; lia).
+Qed.
+
+Lemma final_pos_min ops : forall s, 0 <= s <= gH g -> Forall op_nonneg ops ->
+  final_pos s ops = Z.min (gH g) (s + fold_right (fun o acc => op_amount o + acc) 0 ops).
+Proof.
+  induction ops as [|o t IH]; intros s Hs Hnn; cbn [final_pos fold_right]; [lia|].
+  inversion Hnn as [|? ? Ho Ht]; subst.
+  assert (0 <= op_amount o) by (destruct o; cbn in *; lia).
+  assert (Hacc : 0 <= fold_right (fun o acc => op_amount o + acc) 0 t).
+  { clear -Ht. induction t as [|o' t' IH']; cbn; [lia|]. inversion Ht; subst.
+    assert (0 <= op_amount o') by (destruct o'; cbn in *; lia). specialize (IH' H2). lia. }
+  rewrite IH by (try assumption; lia). lia.
+Qed.
+
 End Sched.
+
+(* ------------------------------------------------------------------ *)
+(* statements exported to props/C08.v                                   *)
+(* ------------------------------------------------------------------ *)
+Definition geom_ok (g : geom) : Prop :=
+  1 <= gM g /\ 1 <= gv g /\ 0 <= gH g < 4294967296 /\ (gmerged g = true -> gv g = 1 \/ gv g = 2).
+
+Definition total_requested (ops : list op) : Z := fold_right (fun o acc => op_amount o + acc) 0 ops.
+
+(* (scanline at which it was delivered, provenance) of every delivered row of a trace *)
+Fixpoint delivered (tr : list (Z * list Z * list prov * Z)) : list (Z * prov) :=
+  match tr with
+  | [] => []
+  | (before, _, rs, _) :: t => combine (zseq before (length rs)) rs ++ delivered t
+  end.
+
+Definition run_result_ok (g : geom) (ops : list op) : Prop :=
+  let res := run_s g (s_init g) ops in
+  scan (fst res) = Z.min (gH g) (total_requested ops) /\
+  trace_ok g 0 ops (snd res) /\
+  Forall (fun yp => snd yp = ideal_s (fst yp) /\ 0 <= fst yp < gH g) (delivered (snd res)).
+
+Lemma combine_rows_of g s k :
+  Forall (fun yp => snd yp = ideal_s (fst yp) /\ s <= fst yp < s + Z.max 0 k)
+         (combine (zseq s (length (rows_of g s k))) (rows_of g s k)).
+Proof.
+  unfold rows_of. rewrite map_length, zseq_length.
+  assert (Hk : Z.max 0 k = Z.of_nat (Z.to_nat k)) by lia. rewrite Hk. clear Hk.
+  generalize (Z.to_nat k) as n. intros n. revert s.
+  induction n as [|n IH]; intros s; cbn [zseq map combine]; [constructor|].
+  constructor; [cbn; split; [reflexivity|lia]|].
+  eapply Forall_impl; [|apply IH]. intros [y p] (A & B). cbn in *. split; [assumption|lia].
+Qed.
+
+Lemma delivered_ok g ops : forall s tr, 0 <= s <= gH g -> trace_ok g s ops tr ->
+  Forall (fun yp => snd yp = ideal_s (fst yp) /\ 0 <= fst yp < gH g) (delivered tr).
+Proof.
+  induction ops as [|o t IH]; intros s tr Hs Htr; destruct tr as [|[[[before cs] rs] after] tr']; cbn in Htr; try contradiction.
+  - constructor.
+  - destruct Htr as (-> & (Haft & Hsum & Ho) & Hrest). cbn [delivered].
+    assert (Hamt : 0 <= after - s) by (destruct o; cbn in *; lia).
+    apply Forall_app. split.
+    + destruct o as [n | n].
+      * destruct Ho as (-> & _). eapply Forall_impl; [|apply combine_rows_of].
+        intros [y p] (A & B). cbn in *. split; [assumption|lia].
+      * destruct Ho as (-> & _). constructor.
+    + apply (IH after); [lia | assumption].
+Qed.
+
+(* Theorem (3)+(4), no-context main controller incl. merged upsampling, for all geometries and all histories
+   without hazard *)
+Theorem skip_read_equals_full_no_hazard :
+  forall g ops, geom_ok g -> Forall op_nonneg ops -> first_hazard g a_init ops = 0 -> run_result_ok g ops.
+Proof.
+  intros g ops (HM & Hv & HH & Hmv) Hnn Hfh. unfold run_result_ok.
+  destruct (run_ok g HM Hv HH Hmv ops a_init (s_init g) Hnn (Rel_init g HM Hv HH Hmv) Hfh) as (A & B).
+  cbn [a_s a_init] in A, B. splits.
+  - rewrite A. rewrite (final_pos_min g ops 0) by (try assumption; lia). unfold total_requested. f_equal.
+  - exact B.
+  - apply (delivered_ok g ops 0); [lia | exact B].
+Qed.
+
+(* the full statement is false for the code that exists: one witness per hazard class *)
+Definition skip_read_equals_full_full : Prop :=
+  forall g ops, geom_ok g -> Forall op_nonneg ops -> run_result_ok g ops.
+
+Definition wg (M v H : Z) (merged : bool) : geom := mkGeom M v H ((H + M * v - 1) / (M * v)) merged false 1 H H false 1 H.
+
+Definition bad_row (g : geom) (ops : list op) (y : Z) (p : prov) : Prop :=
+  In (y, p) (delivered (snd (run_s g (s_init g) ops))) /\ p <> ideal_s y.
+
+Lemma witness_geom_ok M v H merged :
+  (1 <=? M) && (1 <=? v) && (0 <=? H) && (H <? 4294967296) && (negb merged || (v =? 1) || (v =? 2)) = true ->
+  geom_ok (wg M v H merged).
+Proof. unfold geom_ok, wg. cbn. intros. splits; try lia. intros ->. cbn in *. lia. Qed.
+
+(* hazard 1: two skips in a row, the first one ends inside an iMCU row without reading a line of it *)
+Lemma refuted_skip_after_skip :
+  let g := wg 2 1 30 false in let ops := [Skip 3; Skip 1; Read 1] in
+  geom_ok g /\ Forall op_nonneg ops /\ first_hazard g a_init ops = 1 /\ bad_row g ops 4 (2, -1).
+Proof.
+  cbv zeta. splits.
+  - apply witness_geom_ok. reflexivity.
+  - repeat constructor; cbn; lia.
+  - vm_compute. reflexivity.
+  - split; [vm_compute; auto | discriminate].
+Qed.
+
+(* hazard 2: a skip of >= v rows that starts inside a row group (separate upsampler, v = 2) *)
+Lemma refuted_skip_mid_rowgroup :
+  let g := wg 8 2 60 false in let ops := [Read 1; Skip 2; Read 1] in
+  geom_ok g /\ Forall op_nonneg ops /\ first_hazard g a_init ops = 2 /\ bad_row g ops 3 (1, -1).
+Proof.
+  cbv zeta. splits.
+  - apply witness_geom_ok. reflexivity.
+  - repeat constructor; cbn; lia.
+  - vm_compute. reflexivity.
+  - split; [vm_compute; auto | discriminate].
+Qed.
+
+(* hazard 3: merged 2v upsampling, the spare row is occupied when a skip reaches the iMCU row end
+   (this is "djpeg -fast -skip 1,20" of the ctest suite) *)
+Lemma refuted_merged_spare_row :
+  let g := wg 8 2 53 true in let ops := [Read 1; Skip 20; Read 1] in
+  geom_ok g /\ Forall op_nonneg ops /\ first_hazard g a_init ops = 3 /\ bad_row g ops 21 (22, -1).
+Proof.
+  cbv zeta. splits.
+  - apply witness_geom_ok. reflexivity.
+  - repeat constructor; cbn; lia.
+  - vm_compute. reflexivity.
+  - split; [vm_compute; auto | discriminate].
+Qed.
+
+(* hazard 4: rows_to_go is not maintained by the skip; a read with max_lines >= 2 at the last row of an
+   image of odd height returns 2 rows and output_scanline passes output_height *)
+Lemma refuted_rows_to_go :
+  let g := wg 8 2 53 true in let ops := [Skip 21; Read 40] in
+  geom_ok g /\ Forall op_nonneg ops /\ first_hazard g a_init ops = 4 /\
+  scan (fst (run_s g (s_init g) ops)) = gH g + 1.
+Proof.
+  cbv zeta. splits.
+  - apply witness_geom_ok. reflexivity.
+  - repeat constructor; cbn; lia.
+  - vm_compute. reflexivity.
+  - vm_compute. reflexivity.
+Qed.
+
+Lemma refuted_rows_to_go_sep :
+  let g := wg 8 2 53 false in let ops := [Read 2; Skip 2; Read 60] in
+  geom_ok g /\ Forall op_nonneg ops /\ first_hazard g a_init ops = 4 /\
+  scan (fst (run_s g (s_init g) ops)) = gH g + 1.
+Proof.
+  cbv zeta. splits.
+  - apply witness_geom_ok. reflexivity.
+  - repeat constructor; cbn; lia.
+  - vm_compute. reflexivity.
+  - vm_compute. reflexivity.
+Qed.
+
+Theorem skip_read_equals_full_refuted : ~ skip_read_equals_full_full.
+Proof.
+  intros Hfull.
+  destruct refuted_skip_after_skip as (Hg & Hnn & _ & (Hin & Hne)).
+  destruct (Hfull _ _ Hg Hnn) as (_ & _ & Hall).
+  rewrite Forall_forall in Hall. destruct (Hall _ Hin) as (A & _). cbn [fst snd] in A. apply Hne. exact A.
+Qed.
+
+(* non-vacuity: hazard-free histories exist that exercise every branch of the skip code *)
+Lemma example_no_hazard_sep :
+  first_hazard (wg 8 2 100 false) a_init [Skip 5; Read 1; Skip 10; Read 3; Skip 33; Read 2; Skip 200; Read 5] = 0.
+Proof. vm_compute. reflexivity. Qed.
+
+Lemma example_no_hazard_merged :
+  first_hazard (wg 8 2 101 true) a_init [Read 3; Skip 3; Read 2; Skip 40; Read 7; Skip 1; Read 9; Skip 500] = 0.
+Proof. vm_compute. reflexivity. Qed.
